@@ -1,21 +1,21 @@
 SPECIFICATION MCSpec
 CONSTANTS
-  MaxApp = 4
+  MaxApp = 3
   MaxTrn = 1
-  MaxCln = 1
-  MaxHW = 3
+  MaxCln = 0
+  MaxHW = 2
   MaxEp = 2
   MaxImg = 1
   MaxRd = 0
   Keys = {"a"}
   CapSet = {2}
   OccSet = {FALSE}
-  CompactSet = {FALSE, TRUE}
-  MsgsSet = {0, 2}
+  CompactSet = {FALSE}
+  MsgsSet = {0}
   MaxBatch = 1
   TrackLast = FALSE
-  UseSet = FALSE
-  UseReopen = FALSE
+  UseSet = TRUE
+  UseReopen = TRUE
   UseReaders = FALSE
 INVARIANTS TypeOK X05_Ordered X05_Dense X05_NextFollows X05_Epochs X05_ActiveListed
 PROPERTIES S_App S_Trn S_ClnSwap S_ClnStep S_Img S_Rd S_Reopen
